@@ -148,7 +148,7 @@ func applyHooks(specs []hookSpec) (map[string][]byte, error) {
 						sb = &strings.Builder{}
 						appendix[p] = sb
 					}
-					orig := "verifOrig_" + id
+					orig := "VerifOrig_" + id
 					fd.Name.Name = orig
 					if recvType != "" {
 						if recvName == "" || recvName == "_" {
